@@ -380,6 +380,71 @@ SPECS += [
      remove_stmt_where("IntroduceFactory._get_factory_method", lambda s: isinstance(s, ast.If) and "_get_scope_indents" in ast.unparse(s.test)), ["R17.6"]),
 ]
 
+
+# ---- C05 (claimed in build session 2)
+def _move_stmt_to_front(func: str, pred, after_pred):
+    """move the first statement of func's body matching pred to just after the first one matching after_pred"""
+    def edit(tree):
+        f = find_func(tree, func)
+        if f is None:
+            return False
+        hit = [s_ for s_ in f.body if pred(s_)]
+        anchor = [s_ for s_ in f.body if after_pred(s_)]
+        if not hit or not anchor:
+            return False
+        f.body.remove(hit[0])
+        f.body.insert(f.body.index(anchor[0]) + 1, hit[0])
+        return True
+    return edit
+
+
+def _insert_in_loop(func: str, text: str):
+    def edit(tree):
+        f = find_func(tree, func)
+        loops = [x for x in ast.walk(f) if isinstance(x, ast.For)] if f is not None else []
+        if not loops:
+            return False
+        loops[0].body.insert(1, ast.parse(text).body[0])
+        return True
+    return edit
+
+
+SPECS += [
+    ("C05", "move-announced-before-contents", "rope/refactor/move.py",
+     _move_stmt_to_front("MoveModule._calculate_changes", lambda s_: isinstance(s_, ast.If) and "MoveResource" in ast.unparse(s_),
+                         lambda s_: "create_jobset" in ast.unparse(s_)), ["R05.1"]),
+    ("C05", "folder-created-after-move", "rope/refactor/topackage.py",
+     _move_stmt_to_front("ModuleToPackage.get_changes", lambda s_: "CreateFolder" in ast.unparse(s_) and isinstance(s_, ast.Expr),
+                         lambda s_: isinstance(s_, ast.If) and "MoveResource" in ast.unparse(s_)), ["R05.1"]),
+    ("C05", "placeholder-replace-narrowed", "rope/refactor/move.py",
+     replace_expr_where("MoveGlobal._calculate_changes", lambda n: isinstance(n, ast.If) and isinstance(n.test, ast.Name) and ".replace(placeholder" in ast.unparse(n),
+                        lambda n: ast.If(test=ast.parse("should_import and imported != self.old_name").body[0].value, body=n.body, orelse=n.orelse)), ["R05.2"]),
+    ("C05", "source-placeholder-always-kept", "rope/refactor/move.py",
+     remove_stmt_where("MoveGlobal._source_module_changes", stmt_is("source = source.replace(placeholder")), ["R05.2"]),
+    ("C05", "tests-skipped", "rope/refactor/move.py",
+     _insert_in_loop("MoveGlobal._calculate_changes", "if file_.name.startswith('test_'):\n    continue"), ["R05.3"]),
+    ("C05", "back-import-dropped", "rope/refactor/move.py",
+     remove_stmt_where("moving_code_with_imports", stmt_is("imports.append(import_tools.get_from_import")), ["R05.4"]),
+    ("C05", "dest-imports-not-added", "rope/refactor/move.py",
+     replace_expr_where("MoveGlobal._dest_module_changes", lambda n: isinstance(n, ast.Call) and getattr(n.func, "attr", "") == "_add_imports2",
+                        lambda n: ast.Tuple(elts=[n.args[0], ast.Constant(value=False)], ctx=ast.Load())), ["R05.4"]),
+    ("C05", "moving-module-not-absolutised", "rope/refactor/move.py",
+     replace_expr_where("MoveModule._change_moving_module", lambda n: isinstance(n, ast.Call) and getattr(n.func, "attr", "") == "relatives_to_absolutes",
+                        const(None)), ["R05.5"]),
+    ("C05", "package-members-not-absolutised", "rope/refactor/move.py",
+     replace_expr_where("MoveModule._calculate_changes", lambda n: isinstance(n, ast.If) and ast.unparse(n.test) == "module == self.source",
+                        lambda n: ast.If(test=n.test, body=n.body, orelse=n.orelse[0].orelse)), ["R05.5"]),
+    ("C05", "topackage-not-absolutised", "rope/refactor/topackage.py",
+     replace_expr_where("ModuleToPackage.get_changes", lambda n: isinstance(n, ast.Call) and getattr(n.func, "attr", "") == "_transform_relatives_to_absolute",
+                        const(None)), ["R05.5"]),
+    ("C05", "move-only-when-references-changed", "rope/refactor/move.py",
+     replace_expr_where("MoveModule._calculate_changes", lambda n: isinstance(n, ast.If) and "MoveResource" in ast.unparse(n),
+                        lambda n: ast.If(test=ast.parse("self.project == self.source.project and changes.changes").body[0].value, body=n.body, orelse=[])), ["R05.6"]),
+    ("C05", "splice-off-by-one", "rope/refactor/move.py",
+     replace_expr_where("MoveGlobal._dest_module_changes", lambda n: isinstance(n, ast.Subscript) and ast.unparse(n) == "source[cut:]",
+                        lambda n: ast.parse("source[cut + 1:]").body[0].value), ["R05.7"]),
+]
+
 SPECS = [s for s in SPECS if s[1] != "tab-to-four-spaces"]
 
 
